@@ -82,6 +82,10 @@ func getWorld(t testing.TB) *sandbox {
 	must(os.MkdirAll(filepath.Join(w.root, "static"), 0o755))
 	w.dirs["/d"], w.dirs["/e"], w.dirs["/static"] = true, true, true
 	must(os.WriteFile(filepath.Join(base, "secret.txt"), []byte(canary), 0o644))
+	must(os.WriteFile(filepath.Join(base, "index.html"), []byte(canary+":index"), 0o644))
+	must(os.WriteFile(filepath.Join(base, canary+"-NAME.txt"), []byte("x"), 0o644))
+	must(os.MkdirAll(filepath.Join(w.root, "vhost.example"), 0o755))
+	must(os.WriteFile(filepath.Join(w.root, "vhost.example", "page.txt"), []byte("VHOST-PAGE"), 0o644))
 	add := func(p string, n int) {
 		c := fileContent(p, n)
 		w.files[p] = c
@@ -118,6 +122,8 @@ func getWorld(t testing.TB) *sandbox {
 		}
 		h.Group("/slowfs", slow).StaticFS("/", &app.FS{Root: w.root, AcceptByteRange: true, PathRewrite: strip, CacheDuration: shortCache})
 		h.Group("/slowgz", slow).StaticFS("/", &app.FS{Root: w.root, AcceptByteRange: true, Compress: true, PathRewrite: strip, CacheDuration: shortCache})
+		// virtual hosts: files of host H live under root/H; the first path segment is the mount point
+		h.StaticFS("/vh", &app.FS{Root: w.root, PathRewrite: app.NewVHostPathRewriter(1), IndexNames: []string{"index.html"}, GenerateIndexPages: true, AcceptByteRange: true})
 		h.Static("/static", w.root)
 		h.StaticFile("/one", filepath.Join(w.root, "f5"))
 		h.StaticFile("/empty", filepath.Join(w.root, "f0"))
@@ -769,8 +775,12 @@ func TestC08Replaced(t *testing.T) {
 					fail("first version, gzip=%v: got %d bytes that are not the file", gz, len(b))
 				}
 			}
-			write(v2, base.Add(500*time.Millisecond)) // same second, later
-			time.Sleep(4 * shortCache)                // let the cache entries expire
+			if ci%2 == 0 {
+				write(v2, base.Add(500*time.Millisecond)) // same second, later
+			} else {
+				write(v2, base.Add(-36*time.Hour)) // an older version restored with its old modification time
+			}
+			time.Sleep(4 * shortCache) // let the cache entries expire
 			for _, gz := range []bool{true, false, true} {
 				b, msg := get(gz)
 				// the old cache entry lives until the cleaner has run: poll (no timing verdict), a stale
@@ -786,12 +796,57 @@ func TestC08Replaced(t *testing.T) {
 					if bytes.Equal(b, v1) {
 						what = "the previous content"
 					}
-					fail("after the file was replaced (mtime +500 ms) and the %v cache had expired, a request with gzip=%v still got %s (%d bytes) 4 s later", shortCache, gz, what, len(b))
+					fail("after the file was replaced (mtime +500 ms or -36 h) and the %v cache had expired, a request with gzip=%v still got %s (%d bytes) 4 s later", shortCache, gz, what, len(b))
 				}
 			}
 			os.Remove(fp)
 			os.Remove(fp + ".hertz.gz")
 		}
+	}
+}
+
+// TestC08VHost: with the virtual-host rewriter the Host header is part of the file path. Whatever
+// Host and target a client sends, the response carries nothing from outside the root (content of the
+// canary files, the index page or the listing of the directory above), and the page of a real
+// virtual host is served.
+func TestC08VHost(t *testing.T) {
+	rec := ev.New("vhost")
+	w := getWorld(t)
+	hosts := []string{"vhost.example", "..", ".", "...", "%2e%2e", "..%2f..", "a/..", "..\\", "..:80", "vhost.example:8080", "VHOST.example", "../vhost.example", "vhost.example/.."}
+	targets := []string{"/vh", "/vh/", "/vh/page.txt", "/vh/..", "/vh/../", "/vh/./", "/vh//", "/vh/%2e%2e", "/vh/%2e%2e/", "/vh/x/..", "/vh/secret.txt", "/vh/../secret.txt", "/vh/index.html", "/vh/d/../..", "/vh?x=1"}
+	statuses := map[int]int64{}
+	for _, host := range hosts {
+		for _, target := range targets {
+			nt := strings.Contains(host, "..") || strings.Contains(target, "..") || strings.Contains(target, "%2e")
+			rec.Case(nt, ev.HashString(host, target), "host-"+map[bool]string{true: "hostile", false: "plain"}[strings.Contains(host, "..") || strings.Contains(host, "%")])
+			req := "GET " + target + " HTTP/1.1\r\nHost: " + host + "\r\nConnection: close\r\n\r\n"
+			res := w.srv.Serve(sconn.New([][]byte{[]byte(req)}, sconn.EOF))
+			fail := func(f string, a ...interface{}) {
+				msg := fmt.Sprintf("Host %q, target %q: ", host, target) + fmt.Sprintf(f, a...)
+				ev.Fail(prop, "vhost", map[string]string{"host": host, "target": target}, msg)
+				t.Errorf("%s", msg)
+			}
+			if res.Panic != nil {
+				fail("panic: %v", res.Panic)
+				continue
+			}
+			if bytes.Contains(res.Output, []byte(canary)) {
+				fail("the response exposes content or names from outside the root: %.300q", res.Output)
+				continue
+			}
+			pr, err := wire.ReadResponse(res.Output, 0, "GET")
+			if err != nil {
+				fail("response is not well-formed: %v: %q", err, short(res.Output))
+				continue
+			}
+			statuses[pr.Status]++
+			if host == "vhost.example" && target == "/vh/page.txt" && (pr.Status != 200 || string(pr.Body) != "VHOST-PAGE") {
+				fail("the page of the virtual host is not served: status %d body %q", pr.Status, pr.Body)
+			}
+		}
+	}
+	for st, n := range statuses {
+		rec.Class(fmt.Sprintf("status-%d", st), n)
 	}
 }
 
